@@ -13,7 +13,7 @@ Lemma loc_accepted n sched l :
   mon1_run l (holders0 fixed l) (exec fixed n sched) <> None.
 Proof.
   unfold exec.
-  destruct l as [ | | | k i | k | i | k i ph | x | | j | | | | ].
+  destruct l as [ | | | k i | k | i | k i ph | x | | j | | | | | fi | ].
   - apply (fam_run n WFtrue _ _ (WFtrue_step n) (fam_next n)); [exact Logic.I | apply (proj1 (fam_next n))].
   - apply (fam_run n WFtrue _ _ (WFtrue_step n) (fam_etrig n)); [exact Logic.I | apply (proj1 (fam_etrig n))].
   - apply (fam_run n WFtrue _ _ (WFtrue_step n) (fam_timing n)); [exact Logic.I | apply (proj1 (fam_timing n))].
@@ -28,6 +28,8 @@ Proof.
   - apply (fam_run n (WFq n) _ _ (WFq_step n) (fam_cnt n)); [apply WFq_init | apply (proj1 (fam_cnt n))].
   - apply (fam_run n (WFq n) _ _ (WFq_step n) (fam_paused n)); [apply WFq_init | apply (proj1 (fam_paused n))].
   - apply (fam_run n (WFq n) _ _ (WFq_step n) (fam_status n)); [apply WFq_init | apply (proj1 (fam_status n))].
+  - apply (fam_run n WFtrue _ _ (WFtrue_step n) (fam_file n fi)); [exact Logic.I | apply (proj1 (fam_file n fi))].
+  - apply (fam_run n WFtrue _ _ (WFtrue_step n) (fam_state n)); [exact Logic.I | apply (proj1 (fam_state n))].
 Qed.
 
 (* every access of every execution is made by a holder of the location, and ownership moves only along
